@@ -25,7 +25,7 @@ META = {
     "technique": "bounded exhaustive configurations of the real sampler under a modelled multiprocessing environment (token states); "
                  "z3-integer inductive step for the row index arithmetic of _sample_chain",
     "explanation": "configuration space enumerated within small bounds; row/offset arithmetic symbolic",
-    "bounds": {"quick": {"n_warm_up_iter": "0-3", "n_main_iter": "0-3", "chains": 2, "n_process": [1, 2, None]},
+    "bounds": {"quick": {"n_warm_up_iter": "0-5", "n_main_iter": "0-3", "chains": 2, "n_process": [1, 2, None]},
                "thorough": {"n_warm_up_iter": "0-12", "n_main_iter": "0-4", "chains": "2-3"}},
     "outside": "NOT APPLICABLE parts: real worker processes and OS scheduling, flushing to disk as an OS effect, user-directory vs "
                "temporary-directory file lifetime, progress-bar rendering",
@@ -141,11 +141,11 @@ def case_inductive(rec):
 def _configs(tier):
     th = tier == "thorough"
     out = []
-    rng_w = range(0, 13) if th else range(0, 4)
+    rng_w = range(0, 13) if th else range(0, 6)
     rng_m = range(0, 5) if th else range(0, 4)
     for n_warm, n_main in itertools.product(rng_w, rng_m):
         for twu in (False, True):
-            for stager, adapters in (("warmup", "fast"), ("windowed", "slow"), ("default", "none")):
+            for stager, adapters in (("warmup", "fast"), ("windowed", "slow"), ("default", "none"), ("windowed111", "slow")):
                 for n_process in (1, 2, None):
                     if th and n_warm > 4 and (n_process is None or stager == "default"):
                         continue
